@@ -191,7 +191,29 @@ def run(ctx):
     res.check(ok, "R2.6", "accepts_more", am.where(), "accepts_more = current < end_inclusive", "accepts_more computes %s" % (cmpv,))
     nm = fx.body("clap_builder::parser::arg_matcher::ArgMatcher::needs_more_vals")
     acc = nm.calls_to(r"ValueRange::accepts_more$")
-    res.check(len(acc) == 1 and re.search(r"^unwrap_or\(and_then\((as_ref\()?self\.pending", expr(nm, acc[0].args[1])) is not None, "R2.6", "needs_more_vals", nm.where(), "needs_more_vals(arg) = range.accepts_more(#pending values of that arg)", "needs_more_vals changed: %s" % ([expr(nm, c.args[1])[:80] for c in acc]))
+    def pending_count_ok(o):
+        """#pending values of this arg: `pending.and_then(|p| (p.id == arg.id).then_some(p.raw_vals.len())).unwrap_or(0)` or the same as
+        a match/if: every non-zero definition is len(pending.raw_vals) on the (Some(pending), pending.id == arg.id) edge, every other is 0."""
+        if re.search(r"^unwrap_or\(and_then\((as_ref\()?self\.pending", expr(nm, o)):
+            return True
+        l = pl_local(op_place(o)) if isinstance(o, dict) and ("mv" in o or "cp" in o) else None
+        ds = nm.def_sites(l) if l is not None else []
+        for _ in range(6):      # through single-definition copies to the multi-definition local
+            if len(ds) == 1 and isinstance(ds[0][3], dict) and ds[0][3]["k"] == "use" and isinstance(ds[0][3]["op"], dict) and ("cp" in ds[0][3]["op"] or "mv" in ds[0][3]["op"]):
+                ds = nm.def_sites(pl_local(op_place(ds[0][3]["op"])))
+            else:
+                break
+        nz = 0
+        for (bb_, idx_, lhs_, rhs_) in ds:
+            if isinstance(rhs_, dict) and rhs_["k"] == "use" and op_int(rhs_["op"]) == 0:
+                continue
+            g = guard_strs(nm, bb_)
+            if not (isinstance(rhs_, Call) and rhs_.is_(r"Vec(<[^>]*>)?::len$") and re.fullmatch(r"self\.pending#Some\.0\.raw_vals", expr(nm, rhs_.args[0]))
+                    and "V1:self.pending" in g and any(re.fullmatch(r"T:eq\((self\.pending#Some\.0\.id,get_id\(o\)|get_id\(o\),self\.pending#Some\.0\.id)\)", x) for x in g)):
+                return False
+            nz += 1
+        return nz == 1
+    res.check(len(acc) == 1 and pending_count_ok(acc[0].args[1]), "R2.6", "needs_more_vals", nm.where(), "needs_more_vals(arg) = range.accepts_more(#pending values of that arg)", "needs_more_vals changed: %s" % ([expr(nm, c.args[1])[:80] for c in acc]))
 
     # ---- R2.4c global settings that decide about splitting reach every subcommand level (shared with C05 R5.8)
     pg = fx.body("clap_builder::builder::command::Command::_propagate_subcommand")
